@@ -60,10 +60,11 @@ theorem agg_direct (b : Bool) (s : String) (x : F) :
   · intro h; simp [aggNums, flatVals, Res.toArr, firstErr, List.foldlM, h]
   · intro h; simp [aggNums, flatVals, Res.toArr, firstErr, List.foldlM, h]
 
-/-- inside a range: logicals, blanks and non-numeric text are skipped -/
-theorem agg_in_range (b : Bool) (s : String) (x : F) (h : (Num.ofText s : Option F) = none) :
+/-- inside a range: logicals, blanks and text — also text that looks like a number — are skipped
+(the pinned code converts numeric text there: known finding `numeric-text-in-range`) -/
+theorem agg_in_range (b : Bool) (s : String) (x : F) :
     aggNums [(.arr [[.bool b, .blank, .text s, .num x]] : Res F)] = .ok [x] := by
-  simp [aggNums, flatVals, Res.toArr, firstErr, List.foldlM, h]
+  simp [aggNums, flatVals, Res.toArr, firstErr, List.foldlM]
 
 /-- an error anywhere is the result -/
 theorem agg_error (e : Err) (x : F) :
